@@ -2348,6 +2348,8 @@ class PitHist(Output):
             edges = self.thresholds
         if len(edges) < 2:
             verif.util.error("-m pithist needs at least two bin edges (-r)")
+        if np.any(np.diff(edges) <= 0):
+            verif.util.error("-m pithist needs increasing bin edges (-r)")
         num_bins = len(edges)-1
         labels = data.get_legend()
         for f in range(F):
